@@ -97,6 +97,9 @@ def run(ctx):
                         "psi, grad psi are arbitrary in the theorems (nothing is assumed about the user's functions or the direction provider)",
                         "PANTR: non-increase is checked for unchanged step size (property text); FISTA is not part of C05",
                         "recompute_last_prox_step_after_stepsize_change=true rewrites the reported iterate k after the line search: the descent clauses are stated and checked for the default (false)"]
+    # tie 1 (translator G9): regenerate gen/KernelsGen.v from the source, status in ctx.coverage["translator_kernels"], re-check KernelsGenEq.v
+    from vf.props import KERNELS
+    KERNELS.pre(ctx)
     check_properties(ctx)
     if not build_driver(ctx, "solve"): return
     reqs = gen_requests(ctx)
@@ -131,6 +134,7 @@ def run(ctx):
         kinds = sorted(set(owners[i][0] for i in failing))
         ctx.broke("correspondence", "SolverKernels.v vs drv_solve records (%s)" % ",".join(kinds),
                   json.dumps({"first_disagreeing_case": terms[failing[0]], "kind": kind, "request": rq.describe(), "n_disagreements": len(failing)}))
+    KERNELS.attach_runs(ctx, reqs, outs)     # generated kernels (per solver copy) vs the same callback records, at binary64
     # whole-loop tie for PANOC: verified model (Panoc.v) vs the real solver on whole runs
     from vf.props import PANOC, PANTR
     def on_run(cs, o):
